@@ -50,8 +50,8 @@ LogOps   == {"and", "or"}
 
 LeafAll(tier)   == IF tier = "quick" THEN {Ref("x"), Ref("p"), Ref("c"), Ref("u"), Ref("k"), Ref("time"), Der(Ref("x")), Lit(Q(1, 2))}
                    ELSE {Ref("x"), Ref("y"), Ref("p"), Ref("c"), Ref("u"), Ref("k"), Ref("time"), Der(Ref("x")), ILit(2), Lit(Q(1, 2))}
-LeafInner(tier) == IF tier = "quick" THEN {Ref("x"), ILit(2)} ELSE {Ref("x"), Ref("y"), Ref("k"), Ref("time"), ILit(2), Lit(Q(1, 2))}
-LeafOuter(tier) == IF tier = "quick" THEN {Ref("y"), Lit(Q(1, 2))} ELSE {Ref("y"), Ref("p"), Ref("c"), Ref("u"), Der(Ref("x")), ILit(3)}
+LeafInner(tier) == IF tier = "quick" THEN {Ref("x"), ILit(2)} ELSE {Ref("x"), Ref("y"), Ref("k"), ILit(2)}
+LeafOuter(tier) == IF tier = "quick" THEN {Ref("y"), Lit(Q(1, 2))} ELSE {Ref("y"), Ref("p"), Der(Ref("x")), Lit(Q(1, 2))}
 
 NumOp(op, a, b) == IF op \in {"min", "max"} THEN Call(op, <<a, b>>) ELSE Bin(op, a, b)
 NumBin == ArithOps \cup {"min", "max"}
